@@ -987,6 +987,9 @@ def main(repo, lean):
     act = m.group(1)
     m = need(re.search(r"string_map\(\)\s*\{\s*data_\.resize\((\d+)\)\s*;\s*total_\s*=\s*0\s*;\s*first_\s*=\s*-1\s*;\s*\}", act), "string_map constructor")
     w(f"def smInitSize : Nat := {m.group(1)}")
+    # growth path of add(): re-insert in iteration order into the new table, adopt its chain head, swap the tables
+    need(re.search(r"int\s+new_first\s*=\s*-1\s*;\s*std::vector<entry>\s+new_data\(data_\.size\(\)\*2\)\s*;\s*for\s*\(\s*iterator\s+p\s*=\s*begin\(\)\s*,\s*e\s*=\s*end\(\)\s*;\s*p\s*!=\s*e\s*;\s*\+\+p\s*\)\s*\{\s*insert\(new_data,\*p,new_first\)\s*;\s*\}\s*first_\s*=\s*new_first\s*;\s*data_\.swap\(new_data\)\s*;\s*\}\s*insert\(data_,new_entry,first_\)\s*;", act),
+         "string_map::add growth path (new_first / first_ / swap)")
     m2 = need(re.search(r"void\s+clear\(\)\s*\{\s*data_\.clear\(\)\s*;\s*data_\.resize\((\d+)\)\s*;", act), "string_map::clear")
     if m2.group(1) != m.group(1):
         raise Untranslatable("string_map: clear() and constructor sizes differ")
